@@ -150,7 +150,7 @@ def gen_history(rng, length, with_load=True, containers_only=False):
             h = rng.choice(live)
             if not complete(s, s.ident[h]): continue
             if s.kind[h] is None: continue
-            s.op(rng.choice(["ssize %d" % h, "ser %d %d" % (h, rng.randrange(0, 12)), "salloc %d" % h, "desc %d" % h]))
+            s.op(rng.choice(["ssize %d" % h, "ser %d %d" % (h, rng.randrange(0, 12)), "salloc %d" % h, "desc %d" % h, "val %d" % h, "val %d" % h]))
         elif with_load:
             from .cborgen import random_enc
             e = random_enc(rng, 2)
